@@ -79,7 +79,7 @@ def run(tier, seed):
     classes_seen = {}
     for fl, reduced in base.flavours_for(tier, seed, (0, 1, 2, 3, 5, 6)):
         for cls in CLASSES:
-            conf = U.conf_make(cls, True, fl, p['w'])
+            conf = U.conf_make(cls, True, fl, base.window_for(tier, fl, p['w']))
             total, summary = (base.explore_universes(spec, conf, tier, which=base.REDUCED['which'], params=base.REDUCED['params'])
                               if reduced else base.explore_universes(spec, conf, tier))
             rep.cov['per_universe'] += summary
